@@ -37,14 +37,14 @@ import (
 // ---------------------------------------------------------------- environment
 
 var (
-	property string
-	tier     = "quick"
-	seed     uint64 = 1
-	shard    int
-	nshards  = 1
-	outPath  string
-	verifDir = "/verif"
-	repoDir  = "/repo"
+	property   string
+	tier              = "quick"
+	seed       uint64 = 1
+	shard      int
+	nshards    = 1
+	outPath    string
+	verifDir   = "/verif"
+	repoDir    = "/repo"
 	replayBase string // directory that holds replays/<ID>/ (default verifDir/replays)
 )
 
